@@ -259,9 +259,13 @@ class Shelxfile():
         warnings = []
         for restraint in self.restraints:
             bad_atoms = []
+            class_without_residues = bool(restraint.residue_class) and sum(restraint.residue_number) == 0
             for restraint_atom in restraint.atoms:
                 if restraint_atom in ('>', '<', '=') or '$' in restraint_atom:
                     # Range operators, element wildcards ($C) and symmetry equivalents (C1_$1) are not atom names.
+                    continue
+                if class_without_residues and '_' not in restraint_atom:
+                    # The class addresses no residue, so there is no residue to look the atom up in.
                     continue
                 if restraint.residue_number != [0] and '_' not in restraint_atom:
                     for num in restraint.residue_number:
@@ -277,7 +281,7 @@ class Shelxfile():
                                 f'line {restraint.index + 1} ***')
                 warnings.append(f'*** Atom list has no --> {", ".join(sorted_atoms)} ***')
                 bad_atoms.clear()
-            if restraint.residue_class and sum(restraint.residue_number) == 0:
+            if class_without_residues:
                 warnings.append(f"*** Restraint '{restraint}', line {restraint.index + 1}, "
                                 f"has a residue class, but no residues are defined. ***")
         if self.debug or self.verbose:
